@@ -232,7 +232,7 @@ pub fn valid_doc(rng: &mut Rng) -> Vec<(String, Value)> {
             ms.push((q(n), q(m)));
         }
         if k > 0 && rng.chance(2, 3) {
-            cond = Some(*rng.pick(&["$a", "any of them", "all of $a", "not $a"]));
+            cond = Some(*rng.pick(&["$a", "any of them", "all of $a", "not $a", "$a\n", "$a and $a\n", "\n", " $a ", "$a\r\n", "$a\n\n", "\t$a", "$a or\n$a"]));
         }
         e.push(("matches".into(), map(ms)));
     }
